@@ -1,0 +1,22 @@
+//go:build verif
+
+package genetics
+
+// Contracts for the deductive verifier in /verif (govc). Comment-only file: it
+// declares nothing, so the build is identical with and without the tag.
+
+//@ pred sortedLE(gs []*Gene) = forall i, j :: 0 <= i && i < j && j < len(gs) ==> gs[i].InnovationNum <= gs[j].InnovationNum
+//@ pred sortedLT(gs []*Gene) = forall i, j :: 0 <= i && i < j && j < len(gs) ==> gs[i].InnovationNum < gs[j].InnovationNum
+//@ pred nonNilGenes(gs []*Gene) = forall i :: 0 <= i && i < len(gs) ==> gs[i] != nil
+
+//@ func geneInsert
+//@   props C01
+//@   requires g != nil
+//@   requires nonNilGenes(genes)
+//@   requires sortedLE(genes)
+//@   ensures [len] len(result) == len(genes) + 1
+//@   ensures [sorted] sortedLE(result)
+//@   loop 1:
+//@     invariant -1 <= i && i <= index - 1 && index <= len(genes)
+//@     invariant index == len(genes) ==> (forall k :: i < k && k < len(genes) ==> g.InnovationNum < genes[k].InnovationNum)
+//@     invariant index == 0 ==> g.InnovationNum <= genes[0].InnovationNum
